@@ -183,6 +183,29 @@ fn record_stress(args: &[String]) {
     println!("{}", res);
 }
 
+/// sched --out <ndjson> [--shard i --of n] [cfg]: B3 schedule replay (all placements)
+fn sched(args: &[String]) {
+    let output = arg(args, "--out").expect("--out");
+    let shard: usize = arg(args, "--shard").map(|s| s.parse().unwrap()).unwrap_or(0);
+    let of: usize = arg(args, "--of").map(|s| s.parse().unwrap()).unwrap_or(1);
+    let skip: usize = arg(args, "--skip").map(|s| s.parse().unwrap()).unwrap_or(0);
+    let only: Option<usize> = arg(args, "--only").map(|s| s.parse().unwrap());
+    let cfg = cfg_from_args(args);
+    let mut out = std::fs::OpenOptions::new().create(true).append(true).open(&output).expect("open output");
+    for (i, s) in lvh::sched::all_schedules().iter().enumerate() {
+        if i % of != shard || i < skip || only.map(|o| o != i).unwrap_or(false) {
+            continue;
+        }
+        writeln!(out, "{}", json!({"idx": i, "begin": true})).unwrap();
+        out.flush().unwrap();
+        let mut r = lvh::sched::run(s, &cfg);
+        r["idx"] = json!(i);
+        writeln!(out, "{}", r).unwrap();
+        out.flush().unwrap();
+    }
+    writeln!(out, "{}", json!({"shard_done": shard})).unwrap();
+}
+
 fn main() {
     lvh::util::quiet_panics();
     let args: Vec<String> = std::env::args().collect();
@@ -191,6 +214,7 @@ fn main() {
         Some("replay-one") => replay_one(&args[2..]),
         Some("crashimg") => crashimg(&args[2..]),
         Some("record-hist") => record_hist(&args[2..]),
+        Some("sched") => sched(&args[2..]),
         Some("record-stress") => record_stress(&args[2..]),
         _ => {
             eprintln!("usage: lvh <replay-hist> ...");
